@@ -567,8 +567,35 @@ def check_c14(cfg, world, tr, acc):
         acc.count('C14:allocation_rows_checked', len(exp_dates))
 
 
+def table_cells_follow_rows(prop, key, tr, acc, why):
+    """get_target_allocations(): every cell is the value of the latest recorded row at or before its date - NaN where that
+    row does not name the asset (it was not in the asset set of that rebalance) or where no rebalance has happened yet."""
+    sess = tr.session
+    if sess is None or tr.error is not None:
+        return
+    rows = [r['row'] for r in tr.pcm if r['row'] is not None]
+    if not rows:
+        return
+    df = sess.get_target_allocations()
+    for d in df.index:
+        latest = None
+        for r in rows:
+            if py(r['Date']).date() <= d:
+                latest = r
+        for c in df.columns:
+            g = df.at[d, c]
+            w = float('nan') if latest is None or c not in latest else latest[c]
+            if not ((g != g and w != w) or g == w):
+                V(prop, key, 'get_target_allocations() shows %r for %s on %s; the latest rebalance at or before that day %s (%s)'
+                  % (g, c, d, 'recorded %r' % w if w == w else 'did not have that asset in its asset set' if latest is not None
+                     else 'does not exist yet', why))
+    acc.count('%s:allocation_table_cells_checked' % prop, len(df.index) * len(df.columns))
+
+
 def check_c09_session(cfg, world, tr, acc):
     """Set algebra on what portfolio construction saw and returned at every rebalance."""
+    table_cells_follow_rows('C09', 'allocation-table-asset-set', tr, acc,
+                            'the recorded target allocation covers exactly universe + held + alpha keys of that rebalance')
     for i, r in enumerate(tr.pcm):
         if r['orders'] is None:
             continue
@@ -791,6 +818,8 @@ def check_c19_session(cfg, world, tr, acc):
     if tr.error is not None:
         V('C19', 'session-raised/%s' % tr.error[0], 'the session raised %s: %s at %s' % tr.error)
     entries = {a: (refmodel.parse(d) if d else None) for a, d in u['dates'].items()}
+    table_cells_follow_rows('C19', 'allocation-table-before-entry', tr, acc,
+                            'an asset has no target weight before it enters the universe')
     ever_in = set()
     for r in tr.pcm:
         t = py(r['dt'])
